@@ -20,7 +20,10 @@ from pycoin.key.BIP84Node import BIP84Node
 from pycoin.key.subpaths import subpaths_for_path_range
 
 MANIFEST = {
-    "text": "Lean theorems over an executable model of bip32.py / BIP32Node / subpaths / electrum / hparse: CKDpriv and CKDpub equal the "
+    "text": "Lean theorems over an executable model of bip32.py / BIP32Node / subpaths / electrum / hparse: what from_master_secret returns is the "
+            "BIP's master key generation for the seed (C09_master_from_seed; seeds of length 0,1,16,32,64,65 and the vectors' seeds run through bip32_master); "
+            "the HMAC outputs for which CKD declares a key invalid are counted (exactly 2^256-n values of I_L, below 2^-127 of all on secp256k1: "
+            "C09_ckd_invalid_count; 'HMAC-SHA512 output is uniform' is the named assumption that turns the count into a probability); CKDpriv and CKDpub equal the "
             "BIP32 specification (written from the BIP text over Mathlib's elliptic-curve group) whenever I_L < n and the child is "
             "non-zero, for every index below 2^32; public and private derivation commute (group algebra over the C02 refinement of "
             "Curve.add / Generator.__mul__); child metadata; hardened-from-public refused; 78-byte serialisation and the Base58Check "
@@ -1201,6 +1204,12 @@ def gen(ctx, emit):
     # --- BIP32 test vectors 1-3, every listed path, both spellings, private and public roots
     for seedh, paths in VECTORS.items():
         emit("bip32_master 32 " + seedh)
+    # master-key generation (C09_master_from_seed) on seeds of every length class: 0, 1, 16, 32, 64, 65 bytes
+    # (HMAC-SHA512 pads / hashes keys, not messages: no length is special, which is what is checked), all three kinds
+    for ln in (0, 1, 16, 32, 64, 65):
+        for _ in range(ctx.n(2, 20)):
+            sd = bytes(rng.randrange(256) for _ in range(ln))
+            emit("bip32_master %d %s" % (rng.choice([32, 49, 84]), hx(sd) if sd else "-"))
         for p in paths:
             emit("bip32_path btc 32 %s %s 0" % (seedh, s2h(p)))
             if "H" in p:
